@@ -225,6 +225,14 @@ class Engine(ExprMixin, StmtMixin, CallMixin, EngineBase):
                 else:
                     out += shape(ch, depth)
             return out
+        loops = ' '.join(shape(fdef))
+        c = self.contracts.get(qual)
+        anchors = c.extra.get('loop_anchors') if c is not None else None
+        if anchors:
+            # the contract names its loops by header: the structure that matters is "each anchored header occurs once"
+            from .stmts import StmtMixin as _S
+            hdrs = [_S.loop_header(n) for n in ast.walk(fdef) if isinstance(n, (ast.For, ast.While))]
+            loops = 'anchored: ' + '; '.join('%s=%s x%d' % (k, h, hdrs.count(h)) for k, h in sorted(anchors.items()))
         return {'function': qual, 'file': 'src/zope/testrunner/%s.py' % mod, 'line': fdef.lineno,
-                'sha256': hashlib.sha256(src.encode()).hexdigest(), 'loops': ' '.join(shape(fdef)),
+                'sha256': hashlib.sha256(src.encode()).hexdigest(), 'loops': loops,
                 'params': [a.arg for a in fdef.args.args]}
